@@ -33,6 +33,7 @@ def run(ck):
     ck.rule("C14.R6", "what the JSON formatter is handed is what was written: every field form of the macros pairs name, position and %/? sigil with the value (as C10.R2)", floor=300)
     ck.rule("C14.R5", "each JSON record reaches the writer whole: one write_all of the complete buffer, into a buffer cleared first (as C13.R1/R2)", floor=10)
     ck.rule("C14.R4", "a later record updates the span's stored fields under one write lock (read-merge-store is atomic); fields are stored once, merged when present", floor=3)
+    ck.rule("C14.R9", "numbers the JSON visitors do not handle themselves (128-bit) reach record_debug with every digit: Visit's provided methods pass the value on unchanged (as C10.R4)", floor=8)
     ck.rule("C14.R8", "every span field the JSON visitor is handed is stored (as C13.R10)", floor=4)
     ck.rule("C14.R7", "the JSON span list is the event's own scope, root to leaf (as C13.R7)", floor=5)
     ck.rule("C14.R3", "span list is root to leaf", floor=1)
@@ -48,6 +49,8 @@ def run(ck):
     C13.r7(ck, F, rid="C14.R7")
     C13.r7b(ck, F, rid="C14.R7")
     C13.r10(ck, F, rid="C14.R8", only="JsonVisitor")
+    from rules import C10
+    C10.visit_defaults(ck, F, rid="C14.R9")
 
 
 def r1(ck, F):
